@@ -263,6 +263,13 @@ def f():
     late = [lambda: i for i in range(3)]
     return big, y, seen, total, [g() for g in fs], [g() for g in late]
 """,
+    "walrus-in-generator-expression": """
+from itertools import count
+def f():
+    used = {"n", "n_0", "n_1"}
+    name = next(cand for i in count() if (cand := f"n_{i}") not in used)
+    return name, cand, any((hit := x) > 2 for x in [1, 3, 5]), hit
+""",
     "dict-setdefault-get-fromkeys-and-str-methods": """
 def f():
     d = {}
